@@ -196,7 +196,7 @@ def main():
         "violations": m["n_violations"],
         "repo": os.environ.get("VERIF_REPO", "/repo"),
     }
-    if not args.replay:
+    if not args.replay and not os.environ.get("VERIF_NO_EVIDENCE"):
         core.write_evidence(prop, payload)
 
     for mech, slot in sorted(m["known"].items()):
